@@ -210,7 +210,10 @@ def lift(v, ty=None):
         if ty is None:
             if not v:
                 raise OutOfSubset("cannot infer the type of an empty display")
-            ty = SEQ(lift(v[0]).ty)
+            if any(isinstance(x, SV) and x.ty.kind == "val" for x in v):
+                ty = SEQ(VAL)  # a display mixing opaque values and Python scalars is a list of values
+            else:
+                ty = SEQ(lift(v[0]).ty)
         if ty.kind == "rec":
             if len(v) != len(ty.fields):
                 raise OutOfSubset("record arity mismatch")
